@@ -328,6 +328,32 @@ func checkC19(p *Prog, r *Report) {
 		}
 		return "", false
 	}
+	// D4c what an upgrade handler changes is in the stores: memory it writes (a feature flag on a keeper, a package variable) is
+	// gone after a restart, so a node restarted after the upgrade block and one that kept running disagree from then on
+	{
+		var ufns []*ssa.Function
+		for _, fns := range upgradeHandlerFns(p, w) {
+			ufns = append(ufns, fns...)
+		}
+		uscope, _ := moduleScope(p, ufns)
+		cscope, _ := moduleScope(p, consensusEntries(p))
+		chans, _ := hiddenStateChannels(p, uscope, cscope)
+		var locs []string
+		for l := range chans {
+			locs = append(locs, l)
+		}
+		sort.Strings(locs)
+		for _, l := range locs {
+			ws, rs := chans[l][0], chans[l][1]
+			r.Fail(kp("STATE", "upgrade-writes-process-memory:"+l), "an upgrade handler changes stores only, never memory that block processing reads later", p.Pos(ws[0].Instr.Pos()),
+				fmt.Sprintf("%s is written by upgrade code (%s) and read by block processing (%s): the effect of the upgrade is lost by every node that restarts after the upgrade height", l, describeAccess(p, ws[0]), describeAccess(p, rs[0])))
+		}
+		if len(locs) == 0 {
+			r.OK(kp("STATE", "upgrade-writes-process-memory#none"), "an upgrade handler changes stores only, never memory that block processing reads later", "app/upgrades",
+				fmt.Sprintf("%d functions reachable from upgrade packages write no long-lived memory that block processing reads", len(uscope)))
+		}
+	}
+
 	// D4b the upgrade block cannot fail because of custom-module state: code of an upgrade package that (transitively) reads
 	// aol/did/pnft entries must not create errors or panic. A handler error aborts the upgrade block on every node; whether a
 	// state-dependent check fails depends on the chain's history, which the release cannot know.
